@@ -316,11 +316,13 @@ func c18evalOne(cas c18case, t c18tables) *Violation {
 	switch cas.Via {
 	case "SafetyFiles":
 		pan = catch(func() {
-			r := slog.SafetyFiles([]string{in, in})
-			if len(r) != 2 || r[0] != r[1] {
-				panic(fmt.Sprintf("SafetyFiles returned %q for two equal inputs", r))
+			// the list starts with files in the directories above the path (and ends with one below it)
+			up := filepath.Dir(filepath.Dir(in))
+			r := slog.SafetyFiles([]string{"/init.go", filepath.Join(up, "first.go"), in, in, in + "/below.go"})
+			if len(r) != 5 || r[2] != r[3] {
+				panic(fmt.Sprintf("SafetyFiles returned %q for a list with two equal inputs in the middle", r))
 			}
-			out = r[0]
+			out = r[2]
 		})
 	case "record":
 		// a record with caller info whose call site is in this very file. The same call site logs
